@@ -167,8 +167,8 @@ func runDetChart(res *core.Result, cs *chartSpec, rng *rand.Rand, root string, i
 			s := engineRender(ch, top, false)
 			res.Stat("engine_renders_compared", 1)
 			res.Evals++
-			if d := engDiff(ref, s); d != "" {
-				res.Add("nondet-engine-render", strings.SplitN(d, ":", 2)[0]+" differs between two engine.Render calls on the same chart object; "+featureClass("manifest", cs), "%s | %s", d, j.witness())
+			if k, d := engDiff(ref, s); k != "" {
+				res.Add("nondet-engine-render", k+" differs between two engine.Render calls on the same chart object and values", "%s | %s", d, j.witness())
 				break
 			}
 			for k, v := range s.Files {
@@ -309,6 +309,18 @@ func runConcChart(res *core.Result, cs *chartSpec, idx int, can *canaries, verbo
 		return
 	}
 	ref := engineRender(ch, top, false)
+	seqNondet := func(n int) bool {
+		for i := 0; i < n; i++ {
+			if k, d := engDiff(ref, engineRender(ch, top, false)); k != "" {
+				res.Add("nondet-engine-render", k+" differs between two engine.Render calls on the same chart object and values", "%s | %s", d, j.witness())
+				return true
+			}
+		}
+		return false
+	}
+	if seqNondet(3) {
+		return
+	}
 	outs := make([]engSnap, G)
 	for g := 0; g < G; g++ {
 		wg.Add(1)
@@ -327,8 +339,10 @@ func runConcChart(res *core.Result, cs *chartSpec, idx int, can *canaries, verbo
 	for g := 0; g < G; g++ {
 		res.Stat("concurrent_engine_renders_compared", 1)
 		res.Evals++
-		if d := engDiff(ref, outs[g]); d != "" {
-			res.Add("concurrent-engine-render-differs", strings.SplitN(d, ":", 2)[0]+" differs from the sequential engine.Render result", "%s | %s", d, j.witness())
+		if k, d := engDiff(ref, outs[g]); k != "" {
+			if !seqNondet(confirmSequential) {
+				res.Add("concurrent-engine-render-differs", k+" differs from the sequential engine.Render result", "%s | %s", d, j.witness())
+			}
 			break
 		}
 	}
